@@ -36,7 +36,7 @@ func (w *World) checkC42() {
 	tunT := snet.NewTransport(&protocol.Node{Id: 1, Address: "self-tun"})
 	router := transport.NewStreamRouter(zap.NewNop(), chordT, tunT)
 	kinds := []protocol.Stream_Type{protocol.Stream_RPC, protocol.Stream_PROXY, protocol.Stream_DIRECT, protocol.Stream_INTERNAL}
-	targets := []uint64{10, 20, 30}
+	targets := []uint64{0, 10, 20, 1<<48 - 1} // ring identifiers, including both ends of the identifier space
 	var mu sync.Mutex
 	got := map[*transport.StreamDelegate]string{}
 	mk := func(name string) transport.StreamHandler {
@@ -51,7 +51,8 @@ func (w *World) checkC42() {
 	physical := map[protocol.Stream_Type]bool{}
 	tunnel := map[protocol.Stream_Type]bool{}
 	for _, k := range kinds {
-		if r.Chance(0.5) {
+		physicalLast := r.Chance(0.5) // the node-wide handler is registered before or after the virtual ones
+		if !physicalLast && r.Chance(0.5) {
 			physical[k] = true
 			router.HandleChord(k, nil, mk(fmt.Sprintf("physical/%s", k)))
 		}
@@ -64,6 +65,10 @@ func (w *World) checkC42() {
 				virtual[fmt.Sprintf("%s/%d", k, t)] = true
 				router.HandleChord(k, &protocol.Node{Id: t}, mk(fmt.Sprintf("virtual/%s/%d", k, t)))
 			}
+		}
+		if physicalLast && r.Chance(0.5) {
+			physical[k] = true
+			router.HandleChord(k, nil, mk(fmt.Sprintf("physical/%s", k)))
 		}
 	}
 	ctx, cancel := context.WithCancel(w.ctx)
@@ -80,7 +85,7 @@ func (w *World) checkC42() {
 	var wg sync.WaitGroup
 	for i := 0; i < n; i++ {
 		k := kinds[r.Intn(len(kinds))]
-		tgt := append(targets, 40)[r.Intn(4)]
+		tgt := append(append([]uint64{}, targets...), 40)[r.Intn(len(targets)+1)]
 		viaTunnel := r.Chance(0.4)
 		c1, c2 := net.Pipe()
 		_ = c1
